@@ -164,11 +164,12 @@ def prepare_tree(log=print):
         open(os.path.join(tmp, "DONE"), "w").write(str(time.time() - t0))
         shutil.rmtree(d, ignore_errors=True)
         os.rename(tmp, d)
-        # evict old trees (keep the 3 most recent)
+        # evict old trees (keep the 10 most recent, never one used in the last hour: concurrent checks of other trees may be running)
         ents = sorted((e for e in os.listdir(CACHE) if os.path.exists(os.path.join(CACHE, e, "DONE"))),
                       key=lambda e: os.path.getmtime(os.path.join(CACHE, e, "DONE")), reverse=True)
-        for e in ents[3:]:
-            shutil.rmtree(os.path.join(CACHE, e), ignore_errors=True)
+        for e in ents[10:]:
+            if time.time() - os.path.getmtime(os.path.join(CACHE, e, "DONE")) > 3600:
+                shutil.rmtree(os.path.join(CACHE, e), ignore_errors=True)
         log("[engine] compiled %d translation units of %s to IR and native objects in %.1fs" % (len(tus), REPO, time.time() - t0))
     return d
 
